@@ -23,7 +23,7 @@ Theorem allow_overrides_policy_mail : forall c s sz o,
   st s = READY -> sz <> SzBad ->
   (match sz with SzVal n => (n <= max_bytes c /\ n <= int32_max)%Z | _ => True end) ->
   step c s (L (Mail (MParsed sz (Some o)) Allow)) =
-  Ok {| st := MAIL; from := Some o; rcpts := rcpts s; helo := helo s |} (one 250) [].
+  Ok {| st := MAIL; from := Some o; rcpts := rcpts s; helo := helo s; tls := tls s |} (one 250) [].
 Proof.
   intros c s sz o Hs Hb Hsz. unfold step, step_ready, step_mail_from. rewrite Hs.
   destruct sz as [| |n]; try congruence; try reflexivity.
@@ -34,7 +34,7 @@ Qed.
 Theorem allow_overrides_policy_rcpt : forall c s r,
   st s = MAIL -> (Z.of_nat (length (rcpts s)) < max_rcpt c)%Z ->
   step c s (L (Rcpt (RParsed (Some r)) Allow)) =
-  Ok {| st := MAIL; from := from s; rcpts := rcpts s ++ [r]; helo := helo s |} (one 250) [].
+  Ok {| st := MAIL; from := from s; rcpts := rcpts s ++ [r]; helo := helo s; tls := tls s |} (one 250) [].
 Proof.
   intros c s r Hs Hl. unfold step, step_mail. rewrite Hs. cbn [andb].
   destruct (max_rcpt c <=? Z.of_nat (length (rcpts s)))%Z eqn:E; [lia|]. rewrite <- Hs.
